@@ -8,7 +8,7 @@ theorem bO_cll (s s' : St) : Inv s → Inv s' → Bnd s → s.opc = .cll → ste
   intro h h' hb hpc hs
   have hcfg := h.cfg
   have hview := owner_views s h
-  have a1 := h'.pu1; have a2 := h'.pu2; have a3 := h'.pux; have a4 := h'.pt7; have a5 := h'.pt8; have a6 := h'.shz
+  have a1 := h'.pu1; have a2 := h'.pu2; have a3 := h'.pux; have a4 := h'.pt7; have a5 := h'.pt8; have a6 := h'.shz; have a7 := h'.po3; have a8 := h'.po5
   simp only [stepO, hpc, releaseO, fenceOk, hcfg, code_unlockFence, code_pushRb, code_popFence, if_true] at hs
   all_goals (try split at hs)
   all_goals (try split at hs)
@@ -26,7 +26,7 @@ theorem bO_cl1 (s s' : St) : Inv s → Inv s' → Bnd s → s.opc = .cl1 → ste
   intro h h' hb hpc hs
   have hcfg := h.cfg
   have hview := owner_views s h
-  have a1 := h'.pu1; have a2 := h'.pu2; have a3 := h'.pux; have a4 := h'.pt7; have a5 := h'.pt8; have a6 := h'.shz
+  have a1 := h'.pu1; have a2 := h'.pu2; have a3 := h'.pux; have a4 := h'.pt7; have a5 := h'.pt8; have a6 := h'.shz; have a7 := h'.po3; have a8 := h'.po5
   simp only [stepO, hpc, releaseO, fenceOk, hcfg, code_unlockFence, code_pushRb, code_popFence, if_true] at hs
   all_goals (try split at hs)
   all_goals (try split at hs)
@@ -44,7 +44,7 @@ theorem bO_cl2 (s s' : St) : Inv s → Inv s' → Bnd s → s.opc = .cl2 → ste
   intro h h' hb hpc hs
   have hcfg := h.cfg
   have hview := owner_views s h
-  have a1 := h'.pu1; have a2 := h'.pu2; have a3 := h'.pux; have a4 := h'.pt7; have a5 := h'.pt8; have a6 := h'.shz
+  have a1 := h'.pu1; have a2 := h'.pu2; have a3 := h'.pux; have a4 := h'.pt7; have a5 := h'.pt8; have a6 := h'.shz; have a7 := h'.po3; have a8 := h'.po5
   simp only [stepO, hpc, releaseO, fenceOk, hcfg, code_unlockFence, code_pushRb, code_popFence, if_true] at hs
   all_goals (try split at hs)
   all_goals (try split at hs)
@@ -62,7 +62,7 @@ theorem bO_cl3 (s s' : St) : Inv s → Inv s' → Bnd s → s.opc = .cl3 → ste
   intro h h' hb hpc hs
   have hcfg := h.cfg
   have hview := owner_views s h
-  have a1 := h'.pu1; have a2 := h'.pu2; have a3 := h'.pux; have a4 := h'.pt7; have a5 := h'.pt8; have a6 := h'.shz
+  have a1 := h'.pu1; have a2 := h'.pu2; have a3 := h'.pux; have a4 := h'.pt7; have a5 := h'.pt8; have a6 := h'.shz; have a7 := h'.po3; have a8 := h'.po5
   simp only [stepO, hpc, releaseO, fenceOk, hcfg, code_unlockFence, code_pushRb, code_popFence, if_true] at hs
   all_goals (try split at hs)
   all_goals (try split at hs)
